@@ -4,7 +4,7 @@ use crate::UCanonicalGoal;
 use chalk_ir::{interner::Interner, NoSolution};
 use chalk_ir::{Canonical, ConstrainedSubst, Goal, InEnvironment, UCanonical};
 use chalk_ir::{Constraints, Fallible};
-use chalk_solve::{coinductive_goal::IsCoinductive, RustIrDatabase, Solution};
+use chalk_solve::{coinductive_goal::IsCoinductive, Guidance, RustIrDatabase, Solution};
 use std::fmt;
 
 /// A Solver is the basic context in which you can propose goals for a given
@@ -96,6 +96,14 @@ impl<I: Interner> SolverStuff<UCanonicalGoal<I>, Fallible<Solution<I>>> for &dyn
                 Ok(s) => s.is_ambig(),
                 Err(_) => false,
             }
+        }
+    }
+
+    fn unconverged_value(self, value: Fallible<Solution<I>>) -> Fallible<Solution<I>> {
+        // All we know is that the goal is ambiguous.
+        match value {
+            Ok(Solution::Ambig(_)) => Ok(Solution::Ambig(Guidance::Unknown)),
+            value => value,
         }
     }
 
